@@ -255,8 +255,13 @@ fn op_send(line: &str, args: &[SExp]) -> CaseResult {
         } else if c.body != want_body {
             oracle = Some(format!("request body has {} bytes, expected {} (encoded request {} + payload {})", c.body.len(), want_body.len(), want_body.len() - payload.len(), payload.len()));
         } else {
+            // the builder keeps headers in a map: configuring a name again replaces the earlier value
+            let mut last: std::collections::BTreeMap<String, String> = Default::default();
             for (k, v) in &cfg.headers {
-                if !c.headers.iter().any(|h| h.0 == k.to_ascii_lowercase() && &h.1 == v) {
+                last.insert(k.to_ascii_lowercase(), v.clone());
+            }
+            for (k, v) in &last {
+                if !c.headers.iter().any(|h| &h.0 == k && &h.1 == v) {
                     oracle = Some(format!("custom header {}: {} not on the wire", k, v));
                 }
             }
